@@ -71,9 +71,10 @@ CHECKS = {
         text=("Machine-checked proof (Coq): `extra == N` evaluates to membership of the normalised name, an invalid name never matches, `!=` is the "
               "negation as a diagram; simplify_extras(E) evaluates on S exactly as the original on E u S for every environment, the result does not "
               "mention any extra of E (hence flipping it changes no evaluation) and stays canonical; with_extra_marker is marker AND extra == e. "
-              "The recursion below an eliminated extra (two provided extras on one path) is part of the proved function. top_level_extra is decided by "
-              "differential testing against the DNF here and by the DNF theorems of C05. Tie: extracted m_simplify_extras / m_with_extra vs the crate on "
-              "the crate's own operands; evaluate() on S vs S u E on grid environments."),
+              "The recursion below an eliminated extra (two provided extras on one path) is part of the proved function. top_level_extra is modelled as the crate's loop "
+              "over the modelled to_dnf (Marker/TopExtra.v) and proved sound: the expression it returns is in every clause, hence holds in every satisfying assignment, "
+              "a valid name is then among the active extras and an invalid name is returned only for unsatisfiable markers. Tie: extracted m_simplify_extras / "
+              "m_with_extra / top_level_extra vs the crate on the crate's own operands; evaluate() on S vs S u E on grid environments."),
         design_ref='DESIGN.md section 7 / C11',
         technique='Coq proof (restriction semantics by induction on diagrams) + step-wise differential correspondence + evaluation oracle'),
     'C13': dict(
@@ -122,7 +123,10 @@ CHECKS = {
     'C15': dict(
         text=("Machine-checked proof (Coq) of the logic: for every schedule of atomic locked operations of several threads over one shared store, "
               "each thread observes exactly what it observes running alone on an empty store, and equal diagrams are the same id across threads "
-              "(corollary of the store theorems of C14 by induction on the schedule). PARTIAL by nature: atomicity of each operation (std::sync::Mutex), "
+              "(corollary of the store theorems of C14 by induction on the schedule); the same for schedules of the crate's own memoised recursions with the shared "
+              "memo cache; and lock-free reads (kind(), on which evaluate / to_dnf / Display / cmp are built) are linearizable: a traversal that reads every node at an "
+              "arbitrary later instant of an arena that other threads keep extending, pushing the complement bit down lazily, never gets stuck and returns the diagram "
+              "the id had when it was learnt, which is the diagram of the same register in the sequential run of the reader's own program. PARTIAL by nature: atomicity of each operation (std::sync::Mutex), "
               "publication safety of boxcar::Vec, the memory model and absence of deadlock in the OS primitive are assumed; they are backed by a textual "
               "audit of the lock discipline in every run and by a thread stress test (barrier-started races to intern the same fresh markers, "
               "cross-thread ==, identical observations vs a single-threaded fresh process, deadlock watchdog), which is test evidence, not proof."),
@@ -142,7 +146,9 @@ CHECKS = {
         text=("Machine-checked proof (Coq), for every answer of the PEP 440 oracles: each uninterpretable operand/operator combination (two literals, two keys, version key "
               "against a key or non-version text, string key with ~=, extra with an ordering/containment operator) yields no expression and a warning of the matching kind; "
               "interpretable comparisons are silent apart from invalid extra names (reported, kept, arbitrary); and/or chains skip dropped operands, so the result is the "
-              "marker with exactly those comparisons removed (TRUE if nothing remains). Reporter independence is structural in the model (the diagram is a function of tokens "
+              "marker with exactly those comparisons removed (TRUE if nothing remains); lifted to the text by the acceptance theorem: for every marker text derivable from the "
+              "grammar, parsing succeeds, the matching warning kind is in the reported list, the diagram is that of the derivation with exactly the dropped comparisons "
+              "(and the and/or that joined them) removed, and a text without such comparisons reports nothing but invalid extra names. Reporter independence is structural in the model (the diagram is a function of tokens "
               "and oracle answers). Tie: 150+ bogus comparisons alone and inserted at every position of random markers vs the crate (== with the pruned marker, warning kinds, "
               "parse_reporter vs from_str) and vs the extracted parser."),
         design_ref='DESIGN.md section 7 / C17',
